@@ -316,7 +316,7 @@ def _needle_search(ex, s, recv, needle, start, sink, node, raising):
     r = z3.Int("found!%d" % ex._fresh())
     p = z3.Int("p!find%d" % ex._fresh())
     n, L = z3.Length(recv.e), z3.Length(needle.e)
-    occ = lambda i: z3.And(i + L <= n, z3.SubSeq(recv.e, i, L) == needle.e)
+    occ = lambda i: z3.And(i + L <= n, z3.SubSeq(recv.e, i, (i + L) - i) == needle.e)   # same term shape as the contract slice s[i:i+len(needle)]
     found = z3.And(start <= r, occ(r), z3.ForAll([p], z3.Implies(z3.And(start <= p, p < r), z3.Not(occ(p)))))
     absent = z3.ForAll([p], z3.Implies(start <= p, z3.Not(occ(p))))
     out = []
